@@ -110,6 +110,11 @@ def gen(seed, index, tier):
         elif r < 0.37 and lfnames:
             blocks[rng.choice(lfnames)].append("Path=./%s\nType=X\n" % nm)
             hidden.add(nm)
+            if rng.random() < 0.5:
+                # the same entry is also given a title by another block (before or after the
+                # hiding one, in the same or another link file): it stays hidden
+                blocks[rng.choice(lfnames)].append("Path=./%s\nName=Titled but hidden %d\n"
+                                                   % (nm, rng.randrange(100)))
         elif r < 0.62 and lfnames:
             # override, sometimes from two different link files (same entry)
             for lf in rng.sample(lfnames, min(len(lfnames), rng.choice([1, 1, 2]))):
